@@ -316,15 +316,40 @@ func runGoatBlock(rng *Rng, n int, st *Stats, param string) ([]string, []any) {
 			facts.propCons, facts.recip = false, false
 		case 2:
 			structural = "nil-payload"
+		case 3:
+			structural = "block-msg-twice-in-first-tx"
+		case 4:
+			// the envelope of the block transaction: the ante chain must refuse it in process mode
+			structural = []string{"block-tx-with-memo", "block-tx-without-timeout", "block-tx-future-timeout", "block-tx-wrong-sequence", "block-tx-bad-signature"}[r.Intn(5)]
 		}
 		var first []byte
+		blockMsg := &goattypes2.MsgNewEthBlock{Proposer: msgProposer, Payload: p}
 		if mut.name == "honest" && structural == "" {
 			first = txs[0]
 		} else if structural == "nil-payload" {
 			first = w.BuildTx(signer, TxOpt{Timeout: uint64(w.Height)}, &goattypes2.MsgNewEthBlock{Proposer: msgProposer})
 			ptx0 = "(mkPT true 1 true true false)"
+		} else if structural == "block-msg-twice-in-first-tx" {
+			first = w.BuildTx(signer, TxOpt{Timeout: uint64(w.Height)}, blockMsg, blockMsg)
+			ptx0 = "(mkPT true 2 true true true)"
+		} else if strings.HasPrefix(structural, "block-tx-") {
+			opt := TxOpt{Timeout: uint64(w.Height)}
+			switch structural {
+			case "block-tx-with-memo":
+				opt.Memo = "hello"
+			case "block-tx-without-timeout":
+				opt.Timeout = 0
+			case "block-tx-future-timeout":
+				opt.Timeout = uint64(w.Height) + 1 + uint64(r.Intn(3))
+			case "block-tx-wrong-sequence":
+				opt.SeqOff = 1 + r.Intn(2)
+			case "block-tx-bad-signature":
+				opt.BadSig = true
+			}
+			first = w.BuildTx(signer, opt, blockMsg)
+			ptx0 = "(mkPT false 1 true true true)"
 		} else {
-			first = w.BuildTx(signer, TxOpt{Timeout: uint64(w.Height)}, &goattypes2.MsgNewEthBlock{Proposer: msgProposer, Payload: p})
+			first = w.BuildTx(signer, TxOpt{Timeout: uint64(w.Height)}, blockMsg)
 		}
 		proposal := append([][]byte{first}, rest...)
 		var ptxs []string
@@ -363,6 +388,9 @@ func runGoatBlock(rng *Rng, n int, st *Stats, param string) ([]string, []any) {
 		desc := map[string]any{"mutation": mut.name, "structural": structural, "mempool": len(mempool), "proposal_txs": len(proposal), "process": res, "height": w.Height}
 		st.Ops++
 		st.Count("mut:" + mut.name)
+		if structural != "" {
+			st.Count("structural:" + structural)
+		}
 		st.Count(fmt.Sprintf("accepted=%v", accepted))
 		key := mut.name + structural
 		if !seen[key] {
@@ -376,6 +404,12 @@ func runGoatBlock(rng *Rng, n int, st *Stats, param string) ([]string, []any) {
 		}
 		if accepted && !(facts.propCons && facts.recip && facts.ts && facts.parent && facts.number && facts.reqDec && facts.gas == 1 && facts.beacon && facts.dequeue && facts.engine) {
 			st.Violate("C08", "accept-sound", "malformed-accepted:"+mut.name+structural, "a malformed proposal was accepted ("+mut.name+" "+structural+")", desc)
+		}
+		if accepted && strings.Contains(structural, "block-msg-twice-in-first-tx") {
+			st.Violate("C08", "accept-sound", "block-msg-not-alone-accepted", "a proposal whose first transaction carries the execution-block message twice was accepted", desc)
+		}
+		if accepted && strings.Contains(structural, "block-tx-") {
+			st.Violate("C10", "process-admission", "inadmissible-block-tx-accepted:"+structural, "a proposal whose block transaction is inadmissible ("+structural+") was accepted in process mode", desc)
 		}
 		msgOK := "None"
 		headBefore, numBefore, _ := w.HeadInfo()
